@@ -502,3 +502,7 @@ def run(ctx):
     _run_main2(ctx)
     extras2(ctx)
     ctx.flush()
+
+
+# evidence: how the model is tied to the source on every run (as built, supersedes the value above)
+TIE = 'translator (fns/peaks_and_crossings.py -> Gen/PeaksFns; Props/C11Gen, all series and arguments) + correspondence (exhaustive over small alphabets, exact)'
